@@ -41,13 +41,14 @@ func summarizeEncodeNested(r *core.Result, prog *core.Program) {
 	mAtom := sym.Atom("m")
 	sizeM := sym.Fn("Size", mAtom)
 	bufM := sym.Atom("Marshal(m)")
+	aliases := map[types.Object]bool{}
 	isM := func(e ast.Expr) bool { // m itself or the type-switch variable bound to it
 		id, ok := e.(*ast.Ident)
 		if !ok {
 			return false
 		}
 		o := info.Uses[id]
-		if o == mObj {
+		if o == mObj || aliases[o] {
 			return true
 		}
 		// type switch implicit objects
@@ -196,7 +197,13 @@ func summarizeEncodeNested(r *core.Result, prog *core.Program) {
 		}
 		return false
 	}
-	it.Run(f.Decl.Body.List)
+	body := f.Decl.Body.List
+	if spec, ok := specialiseByKind(info, f.Decl, mObj); ok {
+		// the kinds of m are told apart by comma-ok assertions: analyse the equivalent type switch
+		body = []ast.Stmt{spec.sw}
+		aliases = spec.aliases
+	}
+	it.Run(body)
 	for _, p := range it.Problems {
 		problems = append(problems, prog.Pos(p.Pos)+": "+p.What)
 	}
@@ -353,6 +360,34 @@ func errorIsReturned(info *types.Info, call *ast.CallExpr, parents map[ast.Node]
 			}
 		}
 		if ifs == nil {
+			// the assignment ends a branch of an if / else (both ways of obtaining the value meet afterwards):
+			// the test is the statement that follows the enclosing if
+			if blk, ok := parents[x].(*ast.BlockStmt); ok && len(blk.List) > 0 && blk.List[len(blk.List)-1] == ast.Stmt(x) {
+				var outer ast.Node = blk
+				for {
+					is, ok := parents[outer].(*ast.IfStmt)
+					if !ok {
+						break
+					}
+					outer = is
+				}
+				if oi, ok := outer.(*ast.IfStmt); ok {
+					var list []ast.Stmt
+					switch pb := parents[oi].(type) {
+					case *ast.BlockStmt:
+						list = pb.List
+					case *ast.CaseClause:
+						list = pb.Body
+					}
+					for i, st := range list {
+						if st == ast.Stmt(oi) && i+1 < len(list) {
+							ifs, _ = list[i+1].(*ast.IfStmt)
+						}
+					}
+				}
+			}
+		}
+		if ifs == nil {
 			return false, "the error is not tested right after the call"
 		}
 		if !testsErrNonNil(info, ifs.Cond, errObj) {
@@ -446,7 +481,7 @@ func checkC19(r *core.Result) {
 			name = fn.Name
 		}
 		if name == "Unmarshal" {
-			args = append(args, call.Args[0])
+			args = append(args, inlineLocals(info, dn.Decl.Body, call.Args[0]))
 			if call.End() > lastCall {
 				lastCall = call.End()
 			}
@@ -478,7 +513,7 @@ func checkC19(r *core.Result) {
 			it := symexec.New(info, prog.Fset, symexec.Hooks{})
 			hi := it.Eval(sl.High)
 			off := sym.Atom(recv.Name() + ".offset")
-			adv := it.Eval(stores[0].Rhs[0])
+			adv := it.Eval(inlineLocals(info, dn.Decl.Body, stores[0].Rhs[0]))
 			if !sym.Equal(sym.Sum(hi, sym.Mul(-1, off)), adv) {
 				okStore = false
 				detail = fmt.Sprintf("cursor advanced by %s but the nested message ends at %s", adv, hi)
